@@ -85,7 +85,7 @@ Proof.
   { intros e He. apply (s1_edge _ _ _ _ S e He). }
   assert (N1 : Nat.eqb (length (g_N g1)) 1 = false) by (apply Nat.eqb_neq; lia).
   destruct (o_p2 o) eqn:EA.
-  - unfold phase2 in P2. rewrite N1 in P2.
+  - unfold phase2, assign_layers in P2. rewrite N1 in P2.
     destruct (exec_longest_path g1) as [g2a|] eqn:E2a; cbn [bind] in P2; [|discriminate].
     apply (lp_no_empty_band g1 g2a g2 (cb_lp_consistent g1 C1) (cb_lp_ranked g1 C1 R1)); auto.
     + intros n e Hn He. apply UD. destruct C1 as [_ _ HO _]. destruct (HO n Hn) as [_ Hiff]. apply Hiff in He. apply He.
@@ -267,7 +267,7 @@ Proof.
   assert (N0 : g_N g0 = g_N c) by (rewrite Eg0; apply ignore_self_loops_N).
   assert (ONE0 : Nat.eqb (length (g_N g0)) 1 = true) by (rewrite N0, ONE; reflexivity).
   unfold phase1. rewrite ONE0. cbn [bind].
-  unfold phase2. rewrite ONE0. cbn [bind].
+  unfold phase2, assign_layers. rewrite ONE0. cbn [bind].
   assert (NN0 : OptVbalance.layers_nonneg g0).
   { intros n Hn. rewrite N0 in Hn. unfold layer_of. rewrite Eg0.
     destruct (node_attrs_fields _ _ (ignore_self_loops_attrs c n)) as (-> & _). apply (NN n Hn). }
